@@ -735,20 +735,38 @@ fn reads_differ(root: &Path, threads: &[String], scratch: &Path, tag: &str, in_p
     }
     Ok(out)
 }
-/// Executable class of a "reads differ with caches as found vs removed" violation, computed from the files
-/// of thread `id` in `root` (names shared with the C04 harness):
-/// * the full sidecar is well-formed (one frame per line, seqs 0..m-1, m >= 1) and a proper prefix of the
-///   thread's truth stream  => full_sidecar_wellformed_stale_prefix (S3, read side)
-/// * else the mr / comp sidecar is well-formed but not the projection of the truth stream on its frame kinds
-///   => derived_sidecar_wellformed_not_projection (S4)
-/// * a mr / comp sidecar with a line that is not exactly one frame => derived_sidecar_malformed_not_ignored
-/// * else, for a crash point inside / before the index writers => derived_index_wellformed_not_projection (S4)
-/// `key` = which read differs: the replay / cursor / selection / get reads are answered from the full sidecar
-/// only, so nothing but a stale full sidecar explains a difference there; the mr / comp sidecars and the indexes
-/// explain differences of the cut-point and compaction-status reads only.
-/// `inflight` = ids of the frames the crashed call appended in the live run: the known mr / comp finding is a sidecar
-/// that lacks ONLY such frames (one record short, the hole stays); anything else missing or extra is a new violation.
+/// Executable class of a "reads differ with caches as found vs removed" violation.  A class of an OPEN finding is
+/// keyed by the file state AND by the fault that produces that state on today's code (the crash window of the
+/// in-flight call + whether the thread has had its first append since the restart); a state the unchanged tree
+/// does not produce through that fault gets a class of its own and is reported (table in notes/crash4.md):
+/// * S3-read `full_sidecar_wellformed_stale_prefix`: the full sidecar is NON-EMPTY, one frame per line, seqs 0..m-1,
+///   a proper prefix of the thread's stream lacking ONLY frames of the crashed call; fault = crash of an appending
+///   call between its log write and its sidecar write (FULL_WINDOW); only on the store AS FOUND (the thread's first
+///   append after the restart re-syncs: /repo 0b0d2b0).  A crash inside rebuild_best_effort no longer leaves a
+///   prefix (temp + rename, /repo fb2d1ab).
+/// * S4 `derived_sidecar_wellformed_not_projection`: the mr / comp sidecar HOLDS DATA (>= 1 line; a zero-length
+///   derived sidecar is a lost one on today's code, /repo e409d9d: rebuilt from the full sidecar), one frame per
+///   line, = the projection of the stream minus >= 1 frames of the crashed call only, while the full sidecar is
+///   the complete stream; fault = crash after the full-sidecar line is on disk and before that file's own flush.
+/// * S4-index `derived_index_wellformed_not_projection`: the full sidecar is the complete stream, every derived
+///   sidecar that exists holds data and is the exact projection; fault = crash of a call that appended a frame,
+///   after a mr / comp sidecar line is on disk and before its index entries are (INDEX_WINDOW); shows only after
+///   follow-up appends have been indexed behind the hole.
+/// `key` = which read differs: replay / cursor / selection / get are answered from the full sidecar only; the
+/// mr / comp sidecars and the indexes explain differences of the cut-point and compaction-status reads only.
+/// `inflight` = ids of the frames the crashed call appended in the live run.
+const FULL_WINDOW: &[&str] = &["log.body_written", "log.nl_written", "log.flushed", "cont.logged", "cache.side.opened", "cache.side.body", "cache.side.nl"];
+/// after the full-sidecar line can be on disk (a line of BufWriter capacity or more is on disk right after its
+/// single write: the window then opens at .body), before the mr sidecar's flush
+const MR_WINDOW: &[&str] = &["cache.side.body", "cache.side.nl", "cache.side.flushed", "cache.side.indexed", "cache.mr.opened", "cache.mr.body", "cache.mr.nl"];
+/// .. before the comp sidecar's flush (the mr part returns at once for a checkpoint frame)
+const COMP_WINDOW: &[&str] = &["cache.side.body", "cache.side.nl", "cache.side.flushed", "cache.side.indexed", "cache.mr.done", "cache.comp.opened", "cache.comp.body", "cache.comp.nl"];
+const INDEX_WINDOW: &[&str] = &["cache.mr.body", "cache.mr.nl", "cache.mr.flushed", "cache.mr.seek", "cache.mr.msgidx", "cache.comp.body", "cache.comp.nl", "cache.comp.flushed"];
+fn in_index_writer(point: &str) -> bool {
+    point.starts_with("msgidx.") || point.starts_with("seekidx.") || point.starts_with("ordidx.") || point.starts_with("compidx.")
+}
 fn classify_cache_state(root: &Path, id: &str, point: &str, key: &str, inflight: &[String], default: &str) -> String {
+    let after_followups = default.ends_with("followups");
     let truth: Vec<Body> = read_bodies(&truth_path(root)).into_iter().flatten().filter(|b| b.ok && b.continuity && b.stream == id).collect();
     let dir = data_dir(root).join("continuity_streams");
     let wellformed = |p: &Path| -> Option<Vec<Body>> {
@@ -761,37 +779,56 @@ fn classify_cache_state(root: &Path, id: &str, point: &str, key: &str, inflight:
         }
         Some(ls.into_iter().flatten().collect())
     };
-    if let Some(f) = wellformed(&side_path(root, id)) {
+    let full = wellformed(&side_path(root, id));
+    let full_complete = full.as_ref().map(|f| f.len() == truth.len() && f.iter().zip(truth.iter()).all(|(a, b)| a.id == b.id && a.seq == b.seq)).unwrap_or(false);
+    if let Some(f) = &full {
         let contiguous = f.iter().enumerate().all(|(i, b)| b.seq == i as u64);
         if !f.is_empty() && contiguous && f.len() < truth.len() && f.iter().zip(truth.iter()).all(|(a, b)| a.id == b.id) {
-            // the known finding: the sidecar lacks only frames of the crashed call (crash between the log flush and the
-            // sidecar append), or the crash cut an in-place rebuild (any prefix); a sidecar that lost EARLIER frames
-            // otherwise is something else
-            if truth[f.len()..].iter().all(|b| inflight.contains(&b.id)) || point.starts_with("cache.rebuild") {
-                return "full_sidecar_wellformed_stale_prefix".into();
+            if !truth[f.len()..].iter().all(|b| inflight.contains(&b.id)) {
+                return "full_sidecar_stale_beyond_inflight_frames".into();
             }
-            return "full_sidecar_stale_beyond_inflight_frames".into();
+            if !FULL_WINDOW.contains(&point) {
+                return "full_sidecar_stale_outside_append_window".into();
+            }
+            if after_followups {
+                return "full_sidecar_stale_after_first_append".into();
+            }
+            return "full_sidecar_wellformed_stale_prefix".into();
         }
     }
     if !matches!(key, "cut" | "status") {
         return default.to_string();
     }
     let proj = |kinds: &[&str]| -> Vec<String> { truth.iter().filter(|b| kinds.contains(&b.kind.as_str())).map(|b| b.id.clone()).collect() };
-    for (file, kinds) in [
-        (format!("{id}.mr.v1.jsonl"), &["continuity_message_appended", "continuity_run_ended"][..]),
-        (format!("{id}.comp.v1.jsonl"), &["continuity_compaction_checkpoint_created"][..]),
+    for (file, kinds, window, idx_prefixes) in [
+        (format!("{id}.mr.v1.jsonl"), &["continuity_message_appended", "continuity_run_ended"][..], MR_WINDOW, &["seekidx.", "msgidx."][..]),
+        (format!("{id}.comp.v1.jsonl"), &["continuity_compaction_checkpoint_created"][..], COMP_WINDOW, &["seekidx."][..]),
     ] {
         match wellformed(&dir.join(&file)) {
             Some(m) => {
                 let ids: Vec<String> = m.iter().map(|b| b.id.clone()).collect();
                 let want = proj(kinds);
+                if ids.is_empty() {
+                    // today's code never serves a zero-length derived sidecar (it is rebuilt from the full sidecar):
+                    // a differing cut-point / status read next to one is not a known finding
+                    if !want.is_empty() {
+                        return "derived_sidecar_zero_length_served".into();
+                    }
+                    continue;
+                }
                 if ids != want {
                     let missing: Vec<&String> = want.iter().filter(|x| !ids.contains(x)).collect();
                     let rest: Vec<String> = want.iter().filter(|x| ids.contains(x)).cloned().collect();
-                    if !missing.is_empty() && missing.iter().all(|x| inflight.contains(x)) && rest == ids {
-                        return "derived_sidecar_wellformed_not_projection".into();
+                    if missing.is_empty() || !missing.iter().all(|x| inflight.contains(x)) || rest != ids {
+                        return "derived_sidecar_differs_beyond_inflight_frames".into();
                     }
-                    return "derived_sidecar_differs_beyond_inflight_frames".into();
+                    if !full_complete {
+                        return "derived_sidecar_short_next_to_incomplete_full_sidecar".into();
+                    }
+                    if !(window.contains(&point) || idx_prefixes.iter().any(|p| point.starts_with(p))) {
+                        return "derived_sidecar_short_outside_its_crash_window".into();
+                    }
+                    return "derived_sidecar_wellformed_not_projection".into();
                 }
             }
             // a line that is not one frame (torn by a crash between body and newline, the next append glued on)
@@ -799,15 +836,9 @@ fn classify_cache_state(root: &Path, id: &str, point: &str, key: &str, inflight:
             None => {}
         }
     }
-    // (a line of BufWriter capacity or more is on disk right after its single write: the window then opens at .body)
-    let index_window = [
-        "cache.side.body", "cache.side.nl", "cache.side.flushed", "cache.side.indexed", "cache.mr.body", "cache.mr.nl", "cache.mr.flushed", "cache.mr.seek", "cache.mr.msgidx",
-        "cache.mr.done", "cache.comp.body", "cache.comp.nl", "cache.comp.flushed",
-    ];
     // (the known index finding: an entry of a frame of the crashed call is missing; it shows once follow-up appends
     // have been indexed behind the hole - never on the recovered store as found, never without an in-flight frame)
-    let in_window = index_window.contains(&point) || point.starts_with("msgidx.") || point.starts_with("seekidx.") || point.starts_with("ordidx.") || point.starts_with("compidx.");
-    if in_window && !inflight.is_empty() && default.ends_with("followups") {
+    if (INDEX_WINDOW.contains(&point) || in_index_writer(point)) && !inflight.is_empty() && after_followups && full_complete {
         return "derived_index_wellformed_not_projection".into();
     }
     default.to_string()
